@@ -17,13 +17,15 @@ import (
 func init() {
 	eng.Register(&eng.Check{
 		ID:          "C07",
-		Rule:        "E1/E2 differential over selector spellings: every path of 1..3 parts over the part alphabet {a, A, b, 0, 01, a/b, a~b, a.b, 'a b', ' a', e-acute, \"\", ~1, ~0, x~01 (keys that themselves contain escape-like text)} that is expressible in >=2 spellings x EVERY combination of per-part spelling (.ident, .digits, [\"..\"], [`..`], [ \"..\" ] with inner blanks, escape spelling, mixed within one selector; whole-selector JSON pointer with ~0/~1 escapes) x 8 operators x documents (nested string-keyed maps of depth 1..3 with a distinct leaf per path, struct/tag and list variants), also as quantified collection, inside quantifier bodies (alias-relative), and two different paths with colliding rendered text (a[\"a.b\"] vs a.a.b) inside ONE expression in every spelling pair; oracle: grammar.Parse yields exactly the intended Path for every spelling and Evaluate's outcome is identical across the spellings of one path on every document; distinct leaves make case-/blank-variants select different keys. Distinct by construction; non-trivial = a (path, operator) group with >=2 spellings compared.",
+		Rule:        "E1/E2 differential over selector spellings: every path of 1..3 parts over the part alphabet {a, A, b, 0, 01, a/b, a~b, a.b, 'a b', ' a', e-acute, \"\", ~1, ~0, x~01, k/, k~, /k, ~k, /, ~, ~~, ~/ (keys that themselves contain escape-like text)} that is expressible in >=2 spellings x EVERY combination of per-part spelling (.ident, .digits, [\"..\"], [`..`], [ \"..\" ] with inner blanks, escape spelling, mixed within one selector; whole-selector JSON pointer with ~0/~1 escapes) x 8 operators x documents (nested string-keyed maps of depth 1..3 with a distinct leaf per path, struct/tag and list variants), also as quantified collection, inside quantifier bodies (alias-relative), and two different paths with colliding rendered text (a[\"a.b\"] vs a.a.b) inside ONE expression in every spelling pair; oracle: grammar.Parse yields exactly the intended Path for every spelling and Evaluate's outcome is identical across the spellings of one path on every document; distinct leaves make case-/blank-variants select different keys. Distinct by construction; non-trivial = a (path, operator) group with >=2 spellings compared.",
 		Assumptions: []string{"outcome classes only", "bounded part alphabet and depth"},
 		Run:         runC07,
 	})
 }
 
-var c07Parts = []string{"a", "A", "b", "0", "01", "a/b", "a~b", "a.b", "a b", " a", "é", "", "~1", "~0", "x~01", "a-b", "a:b|c", "_x", "007", "1e3", "-1"}
+var c07Parts = []string{"a", "A", "b", "0", "01", "a/b", "a~b", "a.b", "a b", " a", "é", "", "~1", "~0", "x~01", "a-b", "a:b|c", "_x", "007", "1e3", "-1",
+	// separators / escape characters at the END and START of a key and alone (single-pass decoders slip at the boundaries)
+	"k/", "k~", "/k", "~k", "/", "~", "~~", "~/"}
 
 func identOK(s string) bool {
 	if s == "" {
@@ -323,13 +325,23 @@ func runC07(c *eng.Ctx) {
 				sep = "/"
 			}
 			split := append([]string{path[0]}, strings.Split(path[1], sep)...)
-			if len(split) == 3 && identOK(split[0]) {
+			inAlphabet := true // the trees only hold keys of the part alphabet: the split-up path must exist in them
+			for _, sp := range split {
+				found := false
+				for _, q := range c07Parts {
+					found = found || q == sp
+				}
+				inAlphabet = inAlphabet && found
+			}
+			if len(split) == 3 && identOK(split[0]) && inAlphabet {
 				splitSps := c07Spellings(split, false)
-				var first []int
-				var firstSrc string
-				for _, spA := range sps {
-					for _, spB := range splitSps {
-						for _, tm := range []string{"%s is not empty and %s == " + RenderLit(leafID(split)), "%[2]s == " + RenderLit(leafID(split)) + " and %[1]s is not empty"} {
+				// outcomes are compared between spellings of the SAME template (the two templates differ in operand order, and
+				// `E and F` is not `F and E`)
+				for ti, tm := range []string{"%s is not empty and %s == " + RenderLit(leafID(split)), "%[2]s == " + RenderLit(leafID(split)) + " and %[1]s is not empty"} {
+					var first []int
+					var firstSrc string
+					for _, spA := range sps {
+						for _, spB := range splitSps {
 							src := fmt.Sprintf(tm, spA, spB)
 							got := evalSrc(src)
 							c.R.States++
@@ -349,14 +361,16 @@ func runC07(c *eng.Ctx) {
 							}
 						}
 					}
-				}
-				if first != nil {
-					c.R.Nontrivial++
-					// on the depth-3 tree both selectors resolve: the conjunction must be true there
-					if first[2] != vT {
-						c.Violate(eng.Violation{Kind: "colliding-selectors-confused", Key: "expr=" + firstSrc + " | depth-3 tree", Coords: map[string]int{"p": pi}, Expected: "T", Observed: v3name[first[2]]})
+					if first != nil {
+						if ti == 0 {
+							c.R.Nontrivial++
+						}
+						// on the depth-3 tree both selectors resolve: the conjunction must be true there
+						if first[2] != vT {
+							c.Violate(eng.Violation{Kind: "colliding-selectors-confused", Key: "expr=" + firstSrc + " | depth-3 tree", Coords: map[string]int{"p": pi}, Expected: "T", Observed: v3name[first[2]]})
+						}
+						c.Count("two-selectors:" + v3name[first[2]])
 					}
-					c.Count("two-selectors:" + v3name[first[2]])
 				}
 			}
 		}
